@@ -6,7 +6,6 @@ CONSTANTS
   BufferedReply = FALSE
   CloseNotHalf = FALSE
   JoinFirst = FALSE
-  ForceWhileFlowing = FALSE
+  ForceWhileFlowing = TRUE
 INVARIANTS NeverCutWhileFlowing InOrderOnce EOFAfterLast NoFinTwice NothingSwallowed OpenUntilBothDone
-PROPERTIES EventuallyDelivered
 CHECK_DEADLOCK FALSE
